@@ -151,6 +151,13 @@ def run(ctx):
         res.add(Finding('C06', 'C06.b', 'R-TAINT', kb.file, kb.qualname, rets[0].lineno, norm(ret)[:160],
                         'a captured argument collection reaches the key text without passing through the canonical serializer (%s): '
                         'str()/repr() embed addresses and insertion order' % why))
+    enc_calls = [n for n in ast.walk(kb.node) if isinstance(n, ast.Call) and isinstance(n.func, ast.Name) and n.func.id == 'encode']
+    lossy = [n for n in enc_calls if any(not (k.arg == 'unpicklable' and isinstance(k.value, ast.Constant) and k.value.value is True) for k in n.keywords)]
+    cb.instance('%d encode call(s) in the key builder keep type information (no lossy codec option)' % len(enc_calls), kb.qualname, not lossy)
+    for n in lossy:
+        res.add(Finding('C06', 'C06.b', 'R-TAINT', kb.file, kb.qualname, n.lineno, norm(n)[:120],
+                        'the key text is produced with a lossy codec option (%s): arguments that differ only by type (1 / "1", tuple / list, two '
+                        'classes with equal fields) get the same key' % ', '.join('%s=%s' % (k.arg, norm(k.value)) for k in n.keywords)))
     # each encode argument derives from the selected collections only
     params = set(kb.all_param_names)
     okd = True
@@ -305,6 +312,13 @@ def capture_selection(ctx, res, cd, kb):
             if not (infact and all(x is True for x in infact)):
                 bad.setdefault('by-name capture not decided by membership in kwargs', (node, st, 'membership facts %s' % infact))
         else:
+            cargs, ckw = dom.arg_values(node.ast, node.frame, st)
+            v = cargs[0] if cargs else None
+            good = v is not None and v.kind == 'sym' and isinstance(v.name, tuple) and v.name[0] == 'sub' and v.name[1] == A and \
+                isinstance(v.name[3], tuple) and v.name[3][0] == 'attr' and v.name[3][2] == 'position'
+            if not good:
+                bad.setdefault('by-position capture must take args[captured_arg.position]',
+                               (node, st, 'captured value is %s' % (v.name if v is not None else None,)))
             if not (infact and all(x is False for x in infact)) or not (posfact and all(f[0] is False for f in posfact)):
                 bad.setdefault('by-position capture must follow "not passed by keyword" and "position is not None"',
                                (node, st, 'membership %s position %s' % (infact, posfact)))
